@@ -423,7 +423,9 @@ def FormOut (cfg : Cfg) (x ts : Nat) (B : Int) (st : NetStation) (n' : Net) (c :
      (c.tx = none ∨ c.tx = some (selfToken ts) ∨ ∃ a, a ≠ ts ∧ a < st.s.p.hsa ∧ c.tx = some (statusRequestBytes a ts) ∧ stage' = .await a ∧ l' = now + (cfg.b66 : Nat)) ∧
      max now (l' + ((stage'.wait cfg : Nat) : Int)) + ((stage'.rest cfg ts st.s.p.hsa : Nat) : Int) ≤ B ∧
      (c.tx = none → l' = l0 ∧ max now (l' + ((stage'.wait cfg : Nat) : Int)) + ((stage'.slack cfg : Nat) : Int) ≤ Φ) ∧
-     (c.tx ≠ none → now ≤ l'))
+     (c.tx ≠ none → now ≤ l') ∧
+     (c.s.st = .claimToken .secondToken → st.s.st = .claimToken .secondToken ∧ c.tx = none) ∧
+     (c.tx = some (selfToken ts) → st.s.st = .claimToken .secondToken) ∧ c.s.pendingBytes = st.s.pendingBytes)
 
 /-- **One poll of the lone claimant**: it happens no later than `max(last poll, stamp + wait) + P`; the station
 either completes the formation of its one-station ring (token to itself, `UseToken`) or is in the next stage
@@ -459,7 +461,7 @@ theorem form_step {cfg : Cfg} {n : Net} {x : Nat} {st : NetStation} {l : Int} (h
     intro n' hS hw
     unfold FormOut
     exact Or.inr ⟨stage, l, by rw [hup]; exact hS, hs, hv, rfl, .inl rfl, by omega, fun _ => ⟨rfl, by omega⟩,
-      fun h => absurd rfl h⟩
+      fun h => absurd rfl h, fun h => ⟨h, rfl⟩, (fun h => by cases h), rfl⟩
   by_cases hle : now ≤ l
   · obtain ⟨n', hp, hS, hseen⟩ := solo_ongoing h hr now hown hle hno.1 hno.2
     exact ⟨n', _, hp, hseen, by omega, same n' hS (by omega)⟩
@@ -507,7 +509,8 @@ theorem form_step {cfg : Cfg} {n : Net} {x : Nat} {st : NetStation} {l : Int} (h
         (fun b hb => by cases hb)
       refine ⟨n', hp, hseen, ?_⟩
       unfold FormOut
-      refine Or.inr ⟨.done, l, hS, ⟨rfl, 0, rfl⟩, hv, rfl, .inl rfl, ?_, fun _ => ⟨rfl, ?_⟩, fun h => absurd rfl h⟩
+      refine Or.inr ⟨.done, l, hS, ⟨rfl, 0, rfl⟩, hv, rfl, .inl rfl, ?_, fun _ => ⟨rfl, ?_⟩, fun h => absurd rfl h,
+        (fun h => by cases h), (fun h => by cases h), rfl⟩
       · simp only [SStage.wait, SStage.rest]
         rw [hrem] at hBud
         push_cast at hBud ⊢
@@ -533,7 +536,11 @@ theorem form_step {cfg : Cfg} {n : Net} {x : Nat} {st : NetStation} {l : Int} (h
       refine ⟨n', hp, hseen, ?_⟩
       unfold FormOut
       refine Or.inr ⟨.await a, now + (cfg.b66 : Nat), hS, ⟨rfl, rfl⟩, hv, rfl, .inr (.inr ⟨a, hne, ha, rfl, rfl, rfl⟩), ?_,
-        (fun h => by cases h), (fun _ => by omega)⟩
+        (fun h => by cases h), (fun _ => by omega), (fun h => by cases h),
+        (fun h => by
+          have := congrArg List.length (Option.some.inj h)
+          rw [statusRequestBytes_length] at this
+          exact absurd this (by show ¬ (6 = 3); decide)), rfl⟩
       simp only [SStage.wait, SStage.rest]
       rw [← hrem, Nat.add_mul, Nat.one_mul] at hBud
       unfold Cfg.sweepStep at hBud ⊢
@@ -561,7 +568,7 @@ theorem form_step {cfg : Cfg} {n : Net} {x : Nat} {st : NetStation} {l : Int} (h
     refine ⟨n', _, hp, hseen, hnP, ?_⟩
     unfold FormOut
     refine Or.inr ⟨.scan st.s.p.address, now + (cfg.b33 : Nat), hS, ⟨rfl, rfl⟩, ringView_claim hv, rfl, .inr (.inl rfl), ?_,
-      (fun h => by cases h), (fun _ => by omega)⟩
+      (fun h => by cases h), (fun _ => by omega), (fun h => by cases h), fun _ => hs, rfl⟩
     simp only [SStage.wait, SStage.rest]
     push_cast at hB ⊢
     omega
@@ -622,7 +629,8 @@ theorem form_step {cfg : Cfg} {n : Net} {x : Nat} {st : NetStation} {l : Int} (h
       (fun b hb => by cases hb)
     refine ⟨n', _, hp, hseen, hnP, ?_⟩
     unfold FormOut
-    refine Or.inr ⟨.pass, l, hS, rfl, hv, rfl, .inl rfl, ?_, fun _ => ⟨rfl, ?_⟩, fun h => absurd rfl h⟩
+    refine Or.inr ⟨.pass, l, hS, rfl, hv, rfl, .inl rfl, ?_, fun _ => ⟨rfl, ?_⟩, fun h => absurd rfl h,
+      (fun h => by cases h), (fun h => by cases h), rfl⟩
     · simp only [SStage.wait, SStage.rest]
       push_cast at hB ⊢
       omega
@@ -709,7 +717,7 @@ theorem solo_forms {cfg : Cfg} (hok : cfg.Ok) (x ts hsa : Nat) (B : Int) :
     obtain ⟨n', c, hp, hseen, hnow, hout⟩ := form_step h hok stage hs hv B now hlt hle hB
     have hrg := SStage.rest_ge cfg st.s.p.address st.s.p.hsa stage
     refine ⟨n', c, hp, by omega, ?_, ?_⟩
-    · rcases hout with ⟨-, b, -⟩ | ⟨_, _, -, -, -, -, b, -, -, -⟩
+    · rcases hout with ⟨-, b, -⟩ | ⟨_, _, -, -, -, -, b, -, -, -, -⟩
       · exact .inr (.inl b)
       · rcases b with b | b | ⟨a, b1, -, b3, -⟩
         · exact .inl b
@@ -766,7 +774,7 @@ theorem lone_listen_claim {cfg : Cfg} {n : Net} {x : Nat} {st : NetStation} {l :
     (hv : RingView [st.s.p.address] st.s.p.address st.s.ring.claimToken) :
     ∃ n' c, n.poll x now = (n', [], some (.ok c)) ∧ n'.bus.seen.getD x 0 = now ∧ c.tx = some (selfToken st.s.p.address) ∧
       Solo cfg n' x (upSt st c) (now + (cfg.b33 : Nat)) ∧ SStage.c2.ok c.s ∧
-      RingView [st.s.p.address] st.s.p.address c.s.ring ∧ c.s.p = st.s.p := by
+      RingView [st.s.p.address] st.s.p.address c.s.ring ∧ c.s.p = st.s.p ∧ c.s.pendingBytes = st.s.pendingBytes := by
   have hno : st.s.st ≠ .offline ∧ st.s.st ≠ .passiveIdle := by rw [hst]; simp
   have hc2 := cfg.ce2 hok.rate
   have hb33 := h.b33
@@ -786,7 +794,7 @@ theorem lone_listen_claim {cfg : Cfg} {n : Net} {x : Nat} {st : NetStation} {l :
       refine ⟨by show 0 < 3; omega, ?_⟩
       show now + ((cfg.ce 2 : Nat) : Int) ≤ _
       omega)
-  exact ⟨n', _, hp, hseen, rfl, hS, rfl, hv, rfl⟩
+  exact ⟨n', _, hp, hseen, rfl, hS, rfl, hv, rfl, rfl⟩
 
 /-- **Run of a station that is alone on a silent bus** (`T` = stamp + token-lost time-out, `lim` = latest time of
 the first claim, `D` = time budget of the formation): every poll returns regularly and receives nothing; nothing
@@ -818,7 +826,7 @@ theorem lone_cold_start {cfg : Cfg} (hok : cfg.Ok) (x : Nat) (st : NetStation) (
     · obtain ⟨n', c, hp, htx, hS', hseen⟩ := lone_listen_wait h hok coll hst now hlt hw
       refine ⟨n', c, hp, .inl ⟨htx, hw, ?_⟩⟩
       exact ih n' hS' hst hsync hv (by rw [hseen]; omega) hT (by rw [hseen]; exact hrest)
-    · obtain ⟨n', c, hp, hseen, htx, hS', hs2, hv', hp'⟩ := lone_listen_claim h hok coll hst now hlt (by omega) hsync hv
+    · obtain ⟨n', c, hp, hseen, htx, hS', hs2, hv', hp', -⟩ := lone_listen_claim h hok coll hst now hlt (by omega) hsync hv
       refine ⟨n', c, hp, .inr ⟨by omega, by omega, htx, hs2, ?_⟩⟩
       have e1 : (upSt st c).s.p.address = st.s.p.address := by show c.s.p.address = _; rw [hp']
       have e2 : (upSt st c).s.p.hsa = st.s.p.hsa := by show c.s.p.hsa = _; rw [hp']
